@@ -61,8 +61,11 @@ def _run_job(job, scratch, stop_on_fail=False):
     job.dir = d
     t0 = time.time()
     try:
-        steps, argv = job.build(d)
+        built = job.build(d)
+        steps, argv = built[0], built[1]
         cbmc.compile_steps(steps, d)
+        if len(built) > 2 and built[2]:
+            argv = built[2](d, argv)   # post-compile hook (e.g. --unwindset from --show-loops)
         # 1. enumerate the obligations the instrumented program carries
         plist = cbmc.show_properties(argv, d)
         selected = []
@@ -77,8 +80,8 @@ def _run_job(job, scratch, stop_on_fail=False):
         job.argv = argv + [x for n in selected for x in ("--property", n)]
         # 2. decide them (the filtered class is turned into skips, so it cannot
         #    cut paths through CBMC's assert-then-assume treatment of fatal checks)
-        out = os.path.join(d, "result.json")
-        results, dt, msgs = cbmc.run_cbmc(job.argv + ["--json-ui"], d, out, job.timeout, job.mem_gb)
+        out = os.path.join(d, "result.txt")
+        results, dt, msgs = cbmc.run_cbmc(job.argv, d, out, job.timeout, job.mem_gb)
         job.solver_s = dt
         for mt, m in msgs:
             if 'ignoring' in m and ('forall' in m or 'exists' in m or 'quantif' in m):
@@ -143,16 +146,21 @@ def _loc(r):
 
 def get_trace(job, ob):
     """Re-run cbmc for one failed obligation with --trace; returns value list."""
-    out = os.path.join(job.dir, "trace_%s.json" % re.sub(r'\W', '_', ob["id"]))
+    out = os.path.join(job.dir, "trace_%s.txt" % re.sub(r'\W', '_', ob["id"]))
     try:
-        results, _dt, _ = cbmc.run_cbmc(job.argv + ["--json-ui", "--trace", "--property", ob["id"]],
+        results, _dt, _ = cbmc.run_cbmc(job.argv_base + ["--trace", "--property", ob["id"]],
                                         job.dir, out, job.timeout, job.mem_gb)
     except Undecided as e:
         return None, "trace run undecided: %s" % e
+    with open(out, "r", errors="replace") as f:
+        txt = f.read()
     for r in results:
         if r["property"] == ob["id"] and r["status"] == "FAILURE":
-            return cbmc.trace_values(r), None
-    return None, "trace run did not reproduce the failure"
+            vals = cbmc.trace_values_text(txt, ob["id"])
+            if vals is None:
+                return None, "no trace text for the failed obligation"
+            return vals, None
+    return None, "trace run did not reproduce the failure (it may depend on a fatal check that was filtered)"
 
 
 def extract_inputs(vals, names):
